@@ -404,7 +404,7 @@ def r_pushpop_dual(cx):
           "legacy push/pop do not visit the element flags in opposite orders: %s / %s" % (a, b))
 
 
-@rule("R-UNDERFLOW-GUARD", ["C12", "C10"])
+@rule("R-UNDERFLOW-GUARD", ["C12", "C10", "C09"])
 def r_underflow_guard(cx):
     """every Vec::pop().unwrap() on the stack in the primitives is dominated by the sufficient side of a comparison of
     the stack length with the demand, and the insufficient side marks all operands with NaN and returns 0"""
@@ -430,13 +430,18 @@ def r_underflow_guard(cx):
                 full = t.get("callee_full", "")
                 if "[std::vec::Vec<f64>]" in full or "Vec<std::vec::Vec<f64>>" in full:
                     stack_index.append(bb)
+                else:
+                    # column access stack[depth][i] where stack is a slice: the outer index is a place projection
+                    r0 = mir.strip_refs(f.arg_terms(bb)[0])
+                    if r0[0] == "proj" and isinstance(r0[2], tuple) and r0[2][0] == "elem" and len(r0[2]) == 3:
+                        stack_index.append(bb)
         sites = pops + stack_index
         if not sites:
             continue
         guards = _length_guards(f)
         for k, bb in enumerate(sorted(sites)):
             n += 1
-            g = [x for x in guards if f.dominates(x["ok"], bb)]
+            g = [x for x in guards if f.dominates(x["ok"], bb) and _guard_applies(f, x, bb, bb in pops)]
             okg = bool(g)
             fail_ok = okg and all(_fails_loudly(f, x["fail"]) for x in g[:1])
             cx.ob("R-UNDERFLOW-GUARD", "%s/site%d" % (fn, k), okg and fail_ok,
@@ -447,6 +452,16 @@ def r_underflow_guard(cx):
                    "the failing side of the depth test in %s does not (stomp the operands with NaN and return 0)" % fn),
                   cx.where(f.term(bb)["span"]))
     cx.count("R-UNDERFLOW-GUARD", "sites", n)
+
+
+def _guard_applies(f, g, site, is_pop):
+    """an is_empty() test only guarantees one element: it protects a single pop executed in the same loop iteration
+    as the test, never an indexed access at depth-1-j"""
+    if "single" not in g:
+        return True
+    if not is_pop:
+        return False
+    return f.innermost_loop(g["single"]) is f.innermost_loop(site)
 
 
 def _length_guards(f):
@@ -472,7 +487,7 @@ def _length_guards(f):
             else:
                 out.append({"fail": false_succ, "ok": true_succ})
         elif c[0] == "call" and isinstance(c[1], str) and c[1].endswith("::is_empty"):
-            out.append({"fail": true_succ, "ok": false_succ})
+            out.append({"fail": true_succ, "ok": false_succ, "single": bb})
     return [g for g in out if g["ok"] is not None and g["fail"] is not None]
 
 
